@@ -134,14 +134,15 @@ Theorem close_measures (L : Loop R) :
   /\ 0 <= vdot (lnormal L') (newell (verts L'))
   /\ lperim L' = perimeter_of (verts L').
 Proof.
-  unfold loop_close. destruct (Nat.ltb (llen L) 3); [discriminate|].
-  destruct (is_collinear _ _ _) as [c1| |]; cbn [snd]; try discriminate.
-  set (L1 := if c1 then set_verts L (removelast (verts L)) else L).
-  assert (N1 : lnormal L1 = lnormal L) by (unfold L1; destruct c1; reflexivity).
+  unfold loop_close. destruct (lclosed L); [discriminate|]. destruct (Nat.ltb (llen L) 3); [discriminate|].
+  destruct (pop_redundant (verts L) (llen L)) as [vs1 r1]. destruct r1 as [u1| |]; cbn [snd]; try discriminate.
+  destruct (Nat.ltb (length vs1) 3); [discriminate|].
+  set (L1 := set_verts L vs1).
   destruct (valid_to_add L1 _) as [u| |]; cbn [snd]; try discriminate.
-  destruct (is_collinear _ _ _) as [c2| |]; cbn [snd]; try discriminate.
-  set (L2 := if c2 then set_verts L1 (tl (verts L1)) else L1).
-  assert (N2 : lnormal L2 = lnormal L) by (unfold L2; destruct c2; cbn [set_verts lnormal]; exact N1).
+  destruct (drop_first_redundant vs1 (length vs1)) as [vs2 r2]. destruct r2 as [u2| |]; cbn [snd]; try discriminate.
+  destruct (Nat.ltb (length vs2) 3); [discriminate|].
+  set (L2 := set_verts L1 vs2).
+  assert (N2 : lnormal L2 = lnormal L) by reflexivity.
   set (L3 := mkLoop (verts L2) (lnormal L2) true (larea L2) (lperim L2)).
   destruct (loop_set_area L3) as [L4| |] eqn:E4; cbn [snd]; try discriminate.
   destruct (loop_set_perimeter L4) as [L5| |] eqn:E5; cbn [snd fst]; try discriminate. intros _.
